@@ -151,20 +151,20 @@ def meta_order_oracle(ctx, ms):
     return bad
 
 
-def op_sequence(ctx, g: Gen, t, length):
-    """Apply a random chain of public operations; return (trace, first problem or None)."""
+def op_sequence(ctx, g: Gen, t, length, forced=None):
+    """Apply a random chain of public operations (or the `forced` ones, in order); return (trace, first problem or None)."""
     from bermuda.utils import merge, coalesce  # noqa: F401
 
     r = g.r
     trace = []
-    for _ in range(length):
+    for _step in range(length):
         ops = ["filter", "clip", "select", "right_edge", "slice", "index_slice", "add", "to_incremental",
                "to_cumulative", "aggregate", "summarize", "merge", "coalesce", "derive_fields", "derive_metadata",
                "replace", "make_right_triangle", "make_right_diagonal", "split", "period_merge", "add_statics",
                "thin", "fill_forward_gaps", "backfill", "convert_currency", "binary_roundtrip", "json_roundtrip",
                "blend", "remove_static_details", "shift_origin", "add_cross_basis_after", "add_cross_basis_after",
                "wide_frame_roundtrip", "long_frame_roundtrip", "unlimit_one_slice"]
-        op = r.choice(ops)
+        op = forced[_step] if forced else r.choice(ops)
         forced_cross = op == "add_cross_basis_after"
         if forced_cross:
             op = "add"
@@ -459,6 +459,110 @@ def run(ctx):
                 cases.append((ct.ccells(cells), ct.ccells(Triangle(cells).cells), {"layout": "directed-shared-start"}))
             except (ct.NotRepresentable, Exception):  # noqa: BLE001
                 pass
+    # directed families (notes/HARDENING.md): A respelled equal metadata inside a slice, B distinct metadata that
+    # flatten alike as sibling slices, D datetime-like coordinates with a time of day, J semi-monthly periods
+    import pandas as _pd
+    from bermuda import Metadata as _Meta
+
+    class _DT(datetime.datetime):
+        pass
+
+    def _respell(m):
+        fl = lambda v: float(v) if isinstance(v, int) and not isinstance(v, bool) else v  # noqa: E731
+        return _Meta(risk_basis=m.risk_basis, country=m.country, currency=m.currency, reinsurance_basis=m.reinsurance_basis,
+                     loss_definition=m.loss_definition, per_occurrence_limit=fl(m.per_occurrence_limit),
+                     details={k: fl(v) for k, v in reversed(list(m.details.items()))},
+                     loss_details={k: fl(v) for k, v in reversed(list(m.loss_details.items()))})
+
+    def _rebuild(c, **over):
+        kw = dict(period_start=c.period_start, period_end=c.period_end, evaluation_date=c.evaluation_date,
+                  values=dict(c.values), metadata=c.metadata)
+        if type(c).__name__ == "IncrementalCell":
+            kw["prev_evaluation_date"] = c.prev_evaluation_date
+        kw.update(over)
+        return type(c)(**kw)
+
+    def _as_kind(d, kind, h, mi):
+        if kind == "datetime":
+            return datetime.datetime(d.year, d.month, d.day, h, mi)
+        if kind == "Timestamp":
+            return _pd.Timestamp(year=d.year, month=d.month, day=d.day, hour=h, minute=mi)
+        return _DT(d.year, d.month, d.day, h, mi)
+
+    B_PAIRS = [(dict(details={"k": "v"}), dict(loss_details={"k": "v"})),
+               (dict(details={"currency": "USD"}), dict(currency="USD")),
+               (dict(loss_details={"peril": "fire"}), dict(loss_details={"peril": "wind"})),
+               (dict(country=None), dict(country="")), (dict(details={"k": None}), dict()),
+               (dict(details={"a": 1, "b": 2}, loss_details={"a": 1}), dict(details={"a": 1}, loss_details={"a": 1, "b": 2}))]
+    for i in range(60 if ctx.quick else 600):
+        fam = ["A-respelled", "B-flatten-alike", "D-datetime-coords", "J-semi-monthly"][i % 4]
+        ctx.hist("layout:directed-" + fam)
+        ref = None
+        if fam == "A-respelled":
+            cells, info = g.cells(n_periods=g.r.randint(1, 3), n_lags=g.r.randint(1, 3), values="int")
+            cells = [(_rebuild(c, metadata=_respell(c.metadata)) if g.r.random() < 0.5 else c) for c in cells[:20]]
+        elif fam == "B-flatten-alike":
+            ka, kb = g.r.choice(B_PAIRS)
+            base_cells, info = g.cells(n_slices=1, n_periods=g.r.randint(1, 2), n_lags=g.r.randint(1, 3), values="int")
+            cells = [_rebuild(c, metadata=_Meta(**ka)) for c in base_cells[:8]] + [_rebuild(c, metadata=_Meta(**kb)) for c in base_cells[:8]]
+        elif fam == "D-datetime-coords":
+            base_cells, info = g.cells(n_periods=g.r.randint(1, 3), n_lags=g.r.randint(1, 3), values="int", basis="cum")
+            base_cells = base_cells[:16]
+            kind = g.r.choice(["datetime", "Timestamp", "subclass"])
+            cells = []
+            for c in base_cells:
+                if g.r.random() < 0.6:
+                    h, mi = g.r.choice([(0, 0), (17, 30), (23, 59)])
+                    cells.append(_rebuild(c, period_start=_as_kind(c.period_start, kind, 0, 0), period_end=_as_kind(c.period_end, kind, h, mi),
+                                          evaluation_date=_as_kind(c.evaluation_date, kind, h, mi)))
+                else:
+                    cells.append(c)
+            ref = strict_seq(Triangle(list(base_cells)))
+        else:
+            ms, _sd = g.metas(g.r.choice([1, 2]), None)
+            y, mo = g.r.randint(1995, 2030), g.r.randint(1, 12)
+            halves = []
+            for k in range(g.r.randint(1, 3)):
+                yy, mm = y + (mo - 1 + k) // 12, (mo - 1 + k) % 12 + 1
+                last = (datetime.date(yy + (mm == 12), mm % 12 + 1, 1) - datetime.timedelta(days=1)).day
+                halves += [(datetime.date(yy, mm, 1), datetime.date(yy, mm, 15)), (datetime.date(yy, mm, 16), datetime.date(yy, mm, last))]
+            from bermuda import CumulativeCell as _Cum2
+
+            cells = [_Cum2(period_start=a, period_end=b, evaluation_date=b + datetime.timedelta(days=30 * j), values={"paid_loss": g.num("int")}, metadata=m)
+                     for m in ms for (a, b) in halves for j in range(g.r.randint(1, 2))]
+        if not cells:
+            continue
+        base = None
+        for p in range(3):
+            perm = cells[:]
+            g.r.shuffle(perm)
+            try:
+                t = Triangle(perm)
+            except Exception as ex:  # noqa: BLE001
+                fails.append(("constructor-raised", repr(ex), perm, None, "list"))
+                break
+            ctx.count(evaluations=1, traces=1)
+            seq = strict_seq(t)
+            if base is None:
+                base = (seq, perm)
+                probs = canonical_violations(t)
+                if not probs and any(type(x) is not datetime.date for c in t.cells for x in (c.period_start, c.period_end, c.evaluation_date)):
+                    probs = ["a cell holds a coordinate that is not a plain datetime.date"]
+                if not probs and ref is not None and seq != ref:
+                    probs = ["cells built from datetime-like coordinates are not the cells (in the order) built from the dates"]
+                if not probs and fam == "B-flatten-alike" and len(t.slices) != 2:
+                    probs = [f"two distinct metadata give {len(t.slices)} slice(s)"]
+                if not probs and fam == "A-respelled" and len(t.slices) != len({ct.canon_meta(_respell(_respell(c.metadata))) for c in t.cells}):
+                    probs = ["equal metadata spelled differently are split into several slices"]
+                if probs:
+                    fails.append(("not-canonical", probs, list(base_cells) if fam == "D-datetime-coords" else perm, None,
+                                  "list+" + kind if fam == "D-datetime-coords" else "list"))
+                    break
+            elif seq != base[0]:
+                fails.append(("order-depends-on-input", "list vs list", base[1], perm, "list"))
+                break
+        if base is not None and len(cells) >= 2:
+            ctx.nontriv(base[0])
     # multisets with exact duplicates: every supplied cell is kept (a Triangle is built from a multiset)
     for i in range(40 if ctx.quick else 400):
         cells, info = g.cells(n_periods=g.r.randint(1, 3), n_lags=g.r.randint(1, 3), values=g.r.choice(["int", "float"]))
@@ -497,6 +601,24 @@ def run(ctx):
         if prob:
             seq_fail = (trace, prob, t)
             break
+    # directed: every argument-free / fixed-argument operation once on multi-slice triangles whose slices differ in
+    # details (operand must stay the triangle it was, result canonical) -- independent of the random chains' luck
+    if seq_fail is None:
+        fixed_ops = ["summarize", "aggregate", "to_incremental", "to_cumulative", "right_edge", "make_right_triangle",
+                     "merge", "coalesce", "period_merge", "add_statics", "blend", "remove_static_details", "json_roundtrip",
+                     "binary_roundtrip", "derive_fields", "replace", "split", "slice", "select", "convert_currency"]
+        for i in range(12 if ctx.quick else 120):
+            t, info = g.triangle(n_slices=g.r.randint(2, 3), slice_diff=g.r.choice(["details", "loss_details", "several"]),
+                                 n_periods=g.r.randint(1, 3), n_lags=g.r.randint(1, 3), values=g.r.choice(["int", "float"]),
+                                 layout=g.r.choice(["regular", "ragged"]))
+            for op in fixed_ops:
+                trace, prob = op_sequence(ctx, g, t, 1, forced=[op])
+                ctx.count(evaluations=1, traces=1)
+                if prob:
+                    seq_fail = (trace, prob, t)
+                    break
+            if seq_fail:
+                break
     # directed: positional slicing with every kind of step, followed by filter / clip
     if seq_fail is None:
         for i in range(60 if ctx.quick else 600):
@@ -656,6 +778,25 @@ def replay(ctx, data):
     if data.get("kind") in ("order-depends-on-input", "not-canonical", "constructor-raised"):
         a = [ct.cell_from_obj(o) for o in data["cells"]]
         it = data.get("iterable", "list")
+        if "+" in it:
+            # cells are rebuilt from datetime-like coordinates with a time of day (family D)
+            import pandas as pd
+
+            class DT(datetime.datetime):
+                pass
+
+            it, kind = it.split("+")
+            conv = {"datetime": lambda d, h: datetime.datetime(d.year, d.month, d.day, h, 30),
+                    "Timestamp": lambda d, h: pd.Timestamp(year=d.year, month=d.month, day=d.day, hour=h, minute=30),
+                    "subclass": lambda d, h: DT(d.year, d.month, d.day, h, 30)}[kind]
+            ref = strict_seq(Triangle(list(a)))
+            b = [type(c)(period_start=conv(c.period_start, 0), period_end=conv(c.period_end, 17), evaluation_date=conv(c.evaluation_date, 17),
+                         values=dict(c.values), metadata=c.metadata) for c in a]
+            t1 = Triangle(b)
+            plain = all(type(x) is datetime.date for c in t1.cells for x in (c.period_start, c.period_end, c.evaluation_date))
+            same = plain and strict_seq(t1) == ref
+            print(f"cells rebuilt from {kind} coordinates: stored as plain dates: {plain}; same triangle as from the dates: {same}")
+            return 0 if same else 1
         mk = {"list": list, "tuple": tuple, "generator": lambda x: (c for c in x), "iterator": iter}[it]
         t1 = Triangle(list(a))
         probs = canonical_violations(t1)
